@@ -230,7 +230,7 @@ def _check(prog, rep):
     jend = ("field", join.item_proj(1), "1")
     II_end = prog.simp(s.val(ipk, join.header, 0), body)
     SI_end = prog.simp(s.val(spk, join.header, 0), body)
-    table = {}
+    table = []
     kinds = set()
     check_visits_all(r2, body, join, "unfill's join loop over the non-empty lines")
     for tr in loop_system(prog, body, join, [dpk], [res]):
@@ -247,33 +247,66 @@ def _check(prog, rep):
         r2.check(evs == exp, "trace:%s" % ("first" if first else "later"), "%s line: %s" % ("first" if first else "later", [(n.split("::")[-1], D(a)) for n, a in exp]),
                  "trace matches", "for %s the joined text receives %s; expected %s" % (
                      "the first line" if first else "a later line", [(n.split("::")[-1], D(a)) for n, a in evs], [(n.split("::")[-1], D(a)) for n, a in exp]), site=site)
-        # state machine entry
-        dv = ev = None
+        # state machine entry: which (detected, ending) pairs can take this path
+        ALLV = {"None", "LF", "CRLF"}
+        dset, eset = set(ALLV), set(ALLV)
+
+        def refine(cur, which, pol):
+            """keep the values compatible with `value is <which>` having truth pol (which: None / Some / LF / CRLF)"""
+            sel = {"None": {"None"}, "Some": {"LF", "CRLF"}, "LF": {"LF"}, "CRLF": {"CRLF"}}[which]
+            return cur & sel if pol else cur - sel
+
+        def le_const(t):
+            """None / LF / CRLF if t is that Option<LineEnding> or LineEnding constant"""
+            if t[0] == "adt" and t[1].endswith("Option"):
+                if t[2] == "None":
+                    return "None"
+                inner = t[3][0][1] if t[3] else None
+                return le_const(inner) if inner is not None else None
+            if t[0] == "adt" and t[1].endswith("LineEnding") and t[2] in ("LF", "CRLF"):
+                return t[2]
+            return None
+        DETP = ("field", ("as", DET, "Some"), "0")
+        ENDP = ("field", ("as", jend, "Some"), "0")
         for a, pol in tr.facts:
-            if a[0] == "variant" and pol:
-                if a[1] == DET:
-                    dv = a[2] if a[2] == "None" else dv or "Some"
-                elif a[1] == ("field", ("as", DET, "Some"), "0"):
-                    dv = a[2]
-                elif a[1] == jend:
-                    ev = a[2] if a[2] == "None" else ev or "Some"
-                elif a[1] == ("field", ("as", jend, "Some"), "0"):
-                    ev = a[2]
+            if a[0] == "variant":
+                if a[1] == DET and a[2] in ("None", "Some"):
+                    dset = refine(dset, a[2], pol)
+                elif a[1] == DETP and a[2] in ("LF", "CRLF"):
+                    dset = refine(dset, a[2], pol) if pol else dset - {a[2]}
+                elif a[1] == jend and a[2] in ("None", "Some"):
+                    eset = refine(eset, a[2], pol)
+                elif a[1] == ENDP and a[2] in ("LF", "CRLF"):
+                    eset = refine(eset, a[2], pol) if pol else eset - {a[2]}
+            elif a[0] == "b" and a[1][0] == "call":
+                n, args = a[1][1], a[1][2]
+                if n in ("Option::is_none", "Option::is_some") and len(args) == 1 and args[0] in (DET, jend):
+                    which = "None" if n == "Option::is_none" else "Some"
+                    if args[0] == DET:
+                        dset = refine(dset, which, pol)
+                    else:
+                        eset = refine(eset, which, pol)
+                elif (n in ("PartialEq::eq",) or n.endswith(" as std::cmp::PartialEq>::eq")) and len(args) == 2:
+                    for x, c in (args, args[::-1]):
+                        k = le_const(c)
+                        if k is None:
+                            continue
+                        if x == DET:
+                            dset = refine(dset, k, pol)
+                        elif x == DETP:
+                            dset = (dset & {k}) if pol else dset - {k}
+                        elif x == jend:
+                            eset = refine(eset, k, pol)
+                        elif x == ENDP:
+                            eset = (eset & {k}) if pol else eset - {k}
         nxt = tr.next[dpk]
         out = "same" if nxt == DET else "ending" if nxt == jend else "other:" + D(nxt)
-        table.setdefault((dv, ev), set()).add(out)
+        table.append((frozenset(dset), frozenset(eset), out))
     r2.check(kinds == {True, False}, "cases", "first and later lines are distinguished", str(kinds), "the join does not distinguish the first line", nontrivial=False)
 
     def lookup(d, e):
-        """outcome for concrete (detected, ending) in {None, LF, CRLF}."""
-        outs = set()
-        for (dv, ev), o in table.items():
-            if dv is not None and dv != d and not (dv == "Some" and d in ("LF", "CRLF")):
-                continue
-            if ev is not None and ev != e and not (ev == "Some" and e in ("LF", "CRLF")):
-                continue
-            outs |= o
-        return outs
+        """outcomes for concrete (detected, ending) in {None, LF, CRLF}."""
+        return {o for ds, es, o in table if d in ds and e in es}
     for d in ("None", "LF", "CRLF"):
         for e in ("None", "LF", "CRLF"):
             want = "ending" if (d == "None" and e != "None") or (d == "CRLF" and e == "LF") else "same"
@@ -362,6 +395,32 @@ def _non_empty_lines(prog, rep):
     is_find_variant = lambda f: f[0][0] == "variant" and f[0][1] == find
     back_rows, yield_rows = [], []
     ok_rows = True
+    line_upto_lf = ("call", "Index::index", (S, ("adt", "std::ops::RangeTo", "RangeTo", (("end", LFI),))))
+
+    def norm_slice(t, depth=0):
+        """len(&s[..e]) is e and s[..a][..b] is s[..b] (only used inside this rule)."""
+        if not isinstance(t, tuple) or not t or depth > 40:
+            return t
+        t = tuple(norm_slice(x, depth + 1) if isinstance(x, tuple) else x for x in t)
+        if t[0] == "call" and t[1] in ("str::len", "String::len") and len(t[2]) == 1:
+            a = t[2][0]
+            if a[0] == "call" and a[1] == "Index::index" and range_parts(a[2][1])[0] == "to":
+                return range_parts(a[2][1])[2]
+        if t[0] == "call" and t[1] == "Index::index" and len(t[2]) == 2 and range_parts(t[2][1])[0] == "to":
+            a = t[2][0]
+            if a[0] == "call" and a[1] == "Index::index" and range_parts(a[2][1])[0] == "to":
+                return ("call", "Index::index", (a[2][0], t[2][1]))
+        return t
+
+    def norm_facts(facts):
+        """`self.0[..lf].ends_with('\\r')` (also through strip_suffix) is the test of the byte before the line feed."""
+        out = []
+        for a, pol in facts:
+            if a[0] == "b" and a[1][0] == "call" and a[1][1] == "str::ends_with" and a[1][2] == (line_upto_lf, ("char", 13)):
+                out.append((atoms[2][0], pol))
+            else:
+                out.append((a, pol))
+        return out
 
     def describe_facts(facts):
         return [(a[1], D(a[2]), D(a[3]), p) if a[0] == "cmp" else (a[0], p) for a, p in facts][:4]
@@ -373,7 +432,7 @@ def _non_empty_lines(prog, rep):
         site = site_of_block(body, tr.path[-2])
         r.check(found, "loop-cond", "the loop continues only while a '\\n' is found", "", 
                 "NonEmptyLines::next goes round its loop without having found a line feed", site=site)
-        row = truth_row(tr.facts, atoms, ignore=is_find_variant)
+        row = truth_row(norm_facts(tr.facts), atoms, ignore=is_find_variant)
         if row == "infeasible":
             continue
         if row is None:
@@ -404,7 +463,7 @@ def _non_empty_lines(prog, rep):
             r.check(False, "find", "", "", "a path through NonEmptyLines::next does not search self.0 for '\\n'", site=site)
             continue
         if found:
-            row = truth_row(facts, atoms, ignore=is_find_variant)
+            row = truth_row(norm_facts(facts), atoms, ignore=is_find_variant)
             if row == "infeasible":
                 continue
             if row is None:
@@ -420,7 +479,7 @@ def _non_empty_lines(prog, rep):
             want_line = ("call", "Index::index", (S, ("adt", "std::ops::RangeTo", "RangeTo", (("end", end),))))
             want_end = ("adt", "std::option::Option", "Some", (("0", ("adt", "line_ending::LineEnding", "CRLF" if crlf else "LF", ())),))
             okr = crlf is not None and ret[0] == "adt" and ret[2] == "Some" and ret[3][0][1][0] == "tuple" \
-                and len(ret[3][0][1][1]) == 2 and poly_eq_term(ret[3][0][1][1][0], want_line) and ret[3][0][1][1][1] == want_end
+                and len(ret[3][0][1][1]) == 2 and poly_eq_term(norm_slice(ret[3][0][1][1][0]), want_line) and ret[3][0][1][1][1] == want_end
             r.check(okr, "yield", "a line ending in %s is yielded without it, tagged %s" % (
                 "\\r\\n" if crlf else "\\n", "CRLF" if crlf else "LF"), D(ret),
                 "NonEmptyLines::next yields %s for a line whose byte before the line feed %s '\\r'; expected (%s, Some(%s))" % (
